@@ -1,3 +1,3 @@
 From Verif Require Import Extract.C07.
 Require Import ExtrOcamlBasic.
-Extraction "c07_model.ml" c07_eval c07_err c07_project_res c07_normalize c07_project_value c07_nf_ok c07_nf_concrete c07_print c07_range_rewrite c07_impl_def.
+Extraction "c07_model.ml" c07_eval c07_err c07_project_res c07_normalize c07_project_value c07_nf_ok c07_nf_concrete c07_print c07_range_rewrite c07_impl_def c07_norm_sdisj c07_take_defaults c07_print_sdisj c07_pair c07_pair_accepts c07_resolve c07_fold_sensitive c07_sres.
